@@ -37,6 +37,11 @@ CHECKS = {
    "Generated metadata command logs (every FSM command type except those needing a live raft; small argument pools so repeats/conflicts/invalid references are common) are applied entry by entry to three independent FSM replicas plus one that is snapshotted and restored at seeded points; after every entry canonical forms must agree and the invariants of the property (disjoint live ranges, id uniqueness/no reuse, owner placement of new groups, no removed-node owners, rejected command changes nothing) are asserted. Go's randomised map iteration makes order leaks visible as divergence.",
    "Sampled logs; DeletedAt (wall clock) reduced to 'is deleted'; deleted groups not compared across replicas; RemovePeer/legacy CreateNode need a live raft and are exercised by C07 instead.",
    "DESIGN.md section 3 C06"),
+ "C07": ("exploration",
+   "four monitors on the real meta service under the race detector: marshal/restore fidelity of generated metadata; point-in-time oracle for snapshots taken while commands continue (concurrent Persist); every execute-endpoint body class against a worker child (death + death-on-replay classification); fault histories on in-process 3-node meta clusters with restarts, leader changes and forced log snapshots, judged by acknowledged-change and convergence oracles over canonical forms",
+   "(a) generated metadata values (every section, extremes) must survive marshal -> unmarshal and FSM snapshot -> restore exactly; (b) a snapshot taken at index k and persisted while later commands are applied (also concurrently) must restore to the canonical form recorded at k; (c) bodies posted to /execute on a worker child: every command type x {well-formed, missing / wrong / undecodable extension, unknown type, random}; an accepted body must not kill the node, and a node killed once must not die again on replay (restart lane); (d) seeded histories of metadata commands on real clusters interleaved with node stops/restarts, leader kills, all-node restarts and forced raft snapshots: every acknowledged change must be present on every meta node and in every data node's cache once the cluster is whole again, all canonical forms equal, acknowledged changes visible in the issuing client's cache.",
+   "Joining / removing meta nodes, partitions, raft.db corruption and data-node restarts are not exercised; one sequential client in (d); 'eventually' restated as bounded waits (watchdog expiry = inconclusive); (c) single-server only.",
+   "DESIGN.md section 3 C07"),
  "C08": ("exploration",
    "oracle over real PointsWriter.MapShards / WritePointsPrivileged against a real meta service and two meta clients: conservation, independent designation + FNV-64a, independence probes, clock-bracketed retention",
    "Generated metadata histories (lazy/pre-created/truncated/deleted/odd-sized groups, altered durations, 1-4 nodes) on a real single-node meta service with two clients; generated batches are mapped by the real PointsWriter and judged: multiset conservation, each point in the unique live group the metadata designates and in the shard an independent FNV-64a of the canonical key selects, same shard when mapped alone / in other batches / with permuted tags / by the second client, retention drop judged with clock brackets, end-to-end delivery to owners.",
